@@ -13,6 +13,9 @@ import EvalexprVerif.Proofs.Malformed
 import EvalexprVerif.Proofs.EvalOrder
 import EvalexprVerif.Proofs.AgreeOperator
 import EvalexprVerif.Proofs.AgreeToken
+import EvalexprVerif.Proofs.LexRoundtrip
+import EvalexprVerif.Proofs.LexExt
+import EvalexprVerif.Model.Interface
 
 namespace Evalexpr.Spec.C13
 open Evalexpr Evalexpr.Spec
@@ -58,6 +61,47 @@ theorem C13_main (ts : List Token) (h : illFormed ts = true) (s : St) :
     | ok t =>
       have hd := C13_operand ts hl t ht
       exact C13_deficient t hd s
+
+/-- a typed projection never turns a failure into a success -/
+theorem project_ok_inv (k : Kind) (r : Res Value) (v : Value) (h : k.project r = .ok v) : ∃ w, r = .ok w := by
+  cases r with
+  | error e => simp [Kind.project] at h
+  | ok w => exact ⟨w, rfl⟩
+
+/-- **C13 at the level of source text, for EVERY entry point**: a printable token sequence the recogniser
+classifies as ill-formed, written with ANY admissible gap assignment (whitespace of every class, comments,
+literals in every spelling), evaluates successfully through none of the 24 string-level entry points
+(every result type × context-free / read-only / mutable), in any context — `C07_roundtrip_ext` + `C13_main`. -/
+theorem C13_string (ps : List (Gap × PTok)) (g : Gap)
+    (hp : ∀ p ∈ ps, p.2.PrintableX) (ha : AdmissibleX ps g)
+    (h : illFormed (ps.map (·.2.tok)) = true) (k : Kind) (m : Mode) (s : St) :
+    ∀ v, (runString k m (renderFrom ps g) s).1 ≠ .ok v := by
+  intro v hv
+  have hb : buildOperatorTree (renderFrom ps g) = tokensToOperatorTree (ps.map (·.2.tok)) := by
+    unfold buildOperatorTree
+    rw [Evalexpr.Spec.C07_roundtrip_ext ps g hp ha]
+  have hmain := fun s => C13_main (ps.map (·.2.tok)) h s
+  unfold runString at hv
+  rw [hb] at hv
+  unfold evalTokensMut evalTokensRO at hmain
+  cases ht : tokensToOperatorTree (ps.map (·.2.tok)) with
+  | error e => rw [ht] at hv; simp at hv
+  | ok t =>
+    simp only [ht] at hv hmain
+    simp only [runTree] at hv
+    obtain ⟨w, hw⟩ := project_ok_inv k _ v hv
+    cases m with
+    | fresh => exact (hmain St.fresh).1 w (by simpa [runTreeUntyped] using hw)
+    | ro => exact (hmain s).2 w (by simpa [runTreeUntyped] using hw)
+    | mut_ => exact (hmain s).1 w (by simpa [runTreeUntyped] using hw)
+
+/-- … and precompilation of unbalanced source text fails, however it is spaced -/
+theorem C13_string_unbalanced (ps : List (Gap × PTok)) (g : Gap)
+    (hp : ∀ p ∈ ps, p.2.PrintableX) (ha : AdmissibleX ps g)
+    (h : balanced (ps.map (·.2.tok)) = false) : ∃ e, buildOperatorTree (renderFrom ps g) = .error e := by
+  unfold buildOperatorTree
+  rw [Evalexpr.Spec.C07_roundtrip_ext ps g hp ha]
+  exact C13_unbalanced _ h
 
 /-! ### the recogniser is not vacuous: it flags the inputs of the repaired defect and accepts ordinary ones -/
 example : illFormed [.plus, .int 1, .int 2] = true := by decide            -- `+ 1 2`
